@@ -7,10 +7,15 @@ package metadatapart
 //@ func normalizeAndValidateRanges
 //@ arith int
 //@ requires objectSize >= 0
+//@ requires forall k :: 0 <= k && k < len(ranges) ==> specWellFormedRange(ranges[k])
 //@ ensures[C05:slice-exact] err == nil ==> len(result) == len(ranges) &&
 //@     forall k :: 0 <= k && k < len(ranges) ==> specSameSlice(result[k], ranges[k], objectSize)
 //@ ensures[C05:only-416-when-none-satisfiable] err != nil ==>
 //@     !(exists k :: 0 <= k && k < len(ranges) && specSatisfiable(ranges[k], objectSize))
+//@ ensures[C05:normal-form] err == nil && objectSize > 0 ==> forall k :: 0 <= k && k < len(result) ==>
+//@     result[k].Start == nil || result[k].End == nil || specNonEmptyWithin(result[k], objectSize)
 //@ ensures[C05:error-kind] err == nil || err == storage.ErrInvalidRange
 //@ loop 0 invariant 0 <= i && i <= len(ranges) && len(normalized) == len(ranges)
+//@ loop 0 invariant objectSize > 0 ==> forall k :: 0 <= k && k < i ==>
+//@     normalized[k].Start == nil || normalized[k].End == nil || specNonEmptyWithin(normalized[k], objectSize)
 //@ loop 0 invariant forall k :: 0 <= k && k < i ==> specSameSlice(normalized[k], ranges[k], objectSize)
